@@ -467,6 +467,20 @@ func (w *World) DeliverMsg(msg sdk.Msg) (res StepResult) { return w.DeliverMsgTx
 // DeliverMsgTx: with sameTx the message is the next one of the previous message's
 // transaction (same tx hash, next message index).
 func (w *World) DeliverMsgTx(msg sdk.Msg, sameTx bool) (res StepResult) {
+	return w.deliver(msg, sameTx, false)
+}
+
+// SimulateMsg runs the message the way a node answers a gas-estimation (simulate) request -
+// wallets send one before nearly every transaction: the handler runs on a branch of the
+// current state that is thrown away whatever the outcome, under the hash the transaction will
+// have. The store is untouched; whatever the module keeps outside the store is not.
+func (w *World) SimulateMsg(msg sdk.Msg) (res StepResult) {
+	res = w.deliver(msg, false, true)
+	res.Callbacks, res.ModSvc, res.NewCtxID = nil, nil, ""
+	return
+}
+
+func (w *World) deliver(msg sdk.Msg, sameTx bool, dry bool) (res StepResult) {
 	w.cbLog = nil
 	w.modSvcLog = nil
 	defer func() { res.ModSvc, w.modSvcLog = w.modSvcLog, nil }()
@@ -481,6 +495,12 @@ func (w *World) DeliverMsgTx(msg sdk.Msg, sameTx bool) (res StepResult) {
 		// hand the module a slice with spare capacity, as a host application may
 		txHash = append(make([]byte, 0, 64), w.lastTx...)
 		msgIdx = w.lastIdx + 1
+	} else if dry {
+		// the hash the next transaction will have, without consuming it
+		var b [8]byte
+		binary.BigEndian.PutUint64(b[:], w.txSeq+1)
+		h := sha256.Sum256(append([]byte("verif-tx-"), b[:]...))
+		txHash = h[:]
 	} else {
 		txHash = w.nextTxHash()
 		if w.hostileHashes && w.txSeq%5 == 0 {
@@ -504,7 +524,9 @@ func (w *World) DeliverMsgTx(msg sdk.Msg, sameTx bool) (res StepResult) {
 			}
 		}
 	}
-	w.lastTx, w.lastIdx = append([]byte(nil), txHash...), msgIdx
+	if !dry {
+		w.lastTx, w.lastIdx = append([]byte(nil), txHash...), msgIdx
+	}
 	res.TxHash, res.MsgIdx = hexs(txHash), msgIdx
 	cctx, write := w.curCtx().CacheContext()
 	cctx = cctx.WithEventManager(sdk.NewEventManager())
@@ -548,7 +570,7 @@ func (w *World) DeliverMsgTx(msg sdk.Msg, sameTx bool) (res StepResult) {
 		}
 	}()
 	res.WallNs = time.Since(t0).Nanoseconds()
-	if res.OK {
+	if res.OK && !dry {
 		write()
 		res.Callbacks = w.cbLog
 		if _, ok := msg.(*types.MsgCallService); ok {
